@@ -124,7 +124,11 @@ func checkC03(c *hx.Checker) {
 		// larger operands, among them element counts just above powers of two that are no multiple of 2, 4 or 8
 		// (kernels that split the work into blocks)
 		for _, lp := range [][2][]int{{{8, 1, 6, 1}, {7, 1, 5}}, {{33}, {4, 1}}, {{2, 3, 4, 5}, {5}}, {{1, 64}, {64, 1}},
-			{{1025}, {1025}}, {{1027}, {1}}, {{}, {1029}}, {{1, 205}, {5, 1}}, {{4099}, {4099}}, {{3, 1367}, {1367}}, {{32771}, {32771}}, {{65539}, {1}}, {{7, 1, 9363}, {1, 1, 9363}}} {
+			{{1025}, {1025}}, {{1027}, {1}}, {{}, {1029}}, {{1, 205}, {5, 1}}, {{4099}, {4099}}, {{3, 1367}, {1367}}, {{32771}, {32771}}, {{65539}, {1}}, {{7, 1, 9363}, {1, 1, 9363}},
+			// and exact multiples of the usual block sizes (a remainder computed as n % block is 0 there)
+			{{2048}, {2048}}, {{64, 64}, {64, 64}}, {{8192}, {1}}, {{2, 32768}, {32768}}, {{65536}, {65536}}, {{3, 4096}, {3, 1}},
+			// per-channel and per-sample partners of feature maps (N,C,H,W)
+			{{2, 3, 8, 8}, {2, 3, 1, 1}}, {{2, 3, 8, 8}, {3, 1, 1}}, {{2, 3, 8, 8}, {1, 3, 1, 1}}, {{2, 3, 8, 8}, {2, 1, 1, 1}}, {{2, 3, 9, 11}, {2, 3, 1, 1}}, {{2, 3, 8, 8}, {3, 3, 1, 1}}, {{2, 3, 1, 1}, {2, 3, 8, 8}}} {
 			addCase(op, binaryFill(main, lp[0], 1), binaryFill(main, lp[1], 4), "op", true, "large")
 		}
 		for _, dt := range gateDTs(op, 0) {
